@@ -759,6 +759,8 @@ pub fn run(run: &'static Run) {
     run.assume("SHA-1 repositories only; fsmonitor extension not generated; tree-cache children are compared as a set ordered by name (gitoxide documents re-sorting)");
     run.assume("UNTR (untracked cache) content is compared too although gitoxide exposes it only through State::untracked() with private fields (read through a cfg(byron_gitoxide_verif) accessor); the property's mechanism list names decode::stat which only UNTR uses");
     run.budget_secs(run.pick(34.0, 540.0));
+    // E3 part (a few seconds): thread schedules of the threaded decode
+    crate::c24c::schedules(run);
     // development aid only: VERIF_ONLY=<sub> runs a single sub-check (the vacuity guards are then skipped)
     let only = std::env::var("VERIF_ONLY").ok();
     let want = |name: &str| {
